@@ -789,9 +789,11 @@ func runC09Images(t *sim.Tape, opt sim.RunOpt) *sim.Outcome {
 			build, setup = "asan_nosimd", objSetup{fill: 0, flags: initDefault, fresh: true}
 		}
 		cpuPath := strings.HasSuffix(build, "_nosimd")
-		if cpuPath && damaged && imgNames[f.kind] == "jpeg" {
+		if cpuPath && imgNames[f.kind] == "jpeg" && (damaged || strings.Contains(f.desc, "artificial-")) {
 			// The documented exception: the two inverse-DCT variants need only
-			// agree on blocks an encoder can produce.
+			// agree on blocks an encoder can produce. A damaged file, or one of
+			// the hand-made files under test/data/artificial-jpeg, is not known
+			// to be encoder-produced.
 			o.Probe("variant_skipped_jpeg_idct_exception")
 			continue
 		}
